@@ -200,7 +200,15 @@ def run_spring(case):
         net.displacement_bc(1, lambda t: 0.0)
         net.force_bc(0, lambda t: 1.0)
         net.set_times([0.0, 1.0])
-        net.solve(1)
+        if case.get("via") == "reduced":
+            # the way the system solver runs it: reduce the graph first (here a rigid link is merged away) and
+            # solve the sub-network that reduce_graph hands back
+            net.add_node(2)
+            net.add_edge(0, 2, object="rigid")
+            subs = net.reduce_graph()
+            subs[0].solve(1)
+        else:
+            net.solve(1)
         return {"outcome": "return", "calls": proxy.calls}
     except RuntimeError as e:
         return {"outcome": "raise", "calls": proxy.calls, "msg": str(e)[:60]}
